@@ -114,15 +114,228 @@ func errClass(err error) string {
 	return "error"
 }
 
-// experiment puts the tx alone into a block through the normal proposer path on a copy of the state, lets the same
-// proposer build a block without it on a second copy at the same instant, inserts the block with the tx into the
-// main replica as well (validator path), and evaluates the oracle.
+// mkSend builds a signed plain SendTx (MaxFee = the current fee + a little).
+func (p *prog) mkSend(from *sim.Actor, to common.Address, amount *big.Int, nonceOffset int) *types.Transaction {
+	s := p.A.ReadState()
+	tx := &types.Transaction{Type: types.SendTx, To: &to, Epoch: s.State.Epoch(), AccountNonce: p.nextNonce(from) + uint32(nonceOffset), Amount: amount}
+	fpg := nz(s.State.FeePerGas())
+	if min := fee.GetFeePerGasForNetwork(s.ValidatorsCache.NetworkSize()); fpg.Cmp(min) < 0 {
+		fpg = min
+	}
+	feeFor(tx, s.ValidatorsCache.NetworkSize(), fpg, 100, nil)
+	stx, err := types.SignTx(tx, from.Key)
+	if err != nil {
+		p.t.Fatalf("sign: %v", err)
+	}
+	return stx
+}
+
+// spreadNonces gives the senders pairwise different nonces (one block of self-transfers: sender i sends i of them), so
+// that the position of a tx inside a multi-tx block (the builder orders by nonce) can be chosen by choosing senders.
+func (p *prog) spreadNonces() {
+	c := p.copyOf("spread")
+	n := 0
+	for i, a := range p.senders {
+		for k := 0; k < i; k++ {
+			if err := c.Pool.AddExternalTxs(validation.MempoolTx, p.mkSend(a, a.Addr, big.NewInt(0), k)); err == nil {
+				n++
+			}
+		}
+	}
+	b := c.Propose().Block
+	if err := p.A.AddBlock(b); err != nil {
+		p.t.Fatalf("block of self-transfers refused: %v", err)
+	}
+}
+
+// prefixItem is a transaction placed in the same block BEFORE the tx under test.
+type prefixItem struct {
+	tx    *types.Transaction
+	op    *opSpec // nil for a plain SendTx
+	shape string
+}
+
+// drawPrefix draws 0-3 transactions that will precede the tx under test in its block: contract steps of other senders
+// on other contracts, plain SendTxs crediting an address (an actor, the sender under test, a contract), small SendTxs of
+// the sender under test itself. The block builder orders by nonce, so only senders whose next nonce is below the nonce of
+// the tx under test (and pairwise different) qualify; same-sender txs shift the nonce of the tx under test.
+func (p *prog) drawPrefix(op *opSpec) []*prefixItem {
+	if p.chance("prefixNone", 50) {
+		return nil
+	}
+	want := 1 + p.draw("prefixLen", 3)
+	savedLast, savedCtx, savedSelf := p.last, p.ctxAddrs, p.selfPicked
+	defer func() { p.last, p.ctxAddrs, p.selfPicked = savedLast, savedCtx, savedSelf }()
+	var items []*prefixItem
+	used := map[uint32]bool{}
+	offsets := map[int]int{} // txs already placed per sender index
+	top := p.nextNonce(op.sender)
+	admit := func(a *sim.Actor) bool {
+		if a.Idx == op.sender.Idx {
+			return !op.pinNonce
+		}
+		n := p.nextNonce(a) + uint32(offsets[a.Idx])
+		return n < top && !used[n]
+	}
+	place := func(a *sim.Actor) int {
+		off := offsets[a.Idx]
+		offsets[a.Idx]++
+		if a.Idx == op.sender.Idx {
+			op.nonceOffset++
+		} else {
+			used[p.nextNonce(a)+uint32(off)] = true
+		}
+		return off
+	}
+	for i := 0; i < want; i++ {
+		switch k := p.draw("prefixShape", 10); {
+		case k < 5:
+			// a contract step of another sender on another contract
+			var others []*contract
+			for _, c := range p.contracts {
+				if !c.dead && (op.target == nil || c != op.target) {
+					others = append(others, c)
+				}
+			}
+			if len(others) == 0 {
+				continue
+			}
+			c := others[p.draw("prefixContract", len(others))]
+			p.selfPicked = false
+			var pop *opSpec
+			if p.chance("prefixSmart", 85) {
+				pop = p.smartStep(c)
+			} else {
+				pop = p.wildStep(c)
+			}
+			if pop.special != "" || pop.sender.Idx == op.sender.Idx || !admit(pop.sender) {
+				continue
+			}
+			pop.nonceOffset = place(pop.sender)
+			tx, _ := p.build(pop)
+			items = append(items, &prefixItem{tx: tx, op: pop, shape: "contract"})
+		case k < 8:
+			// a plain SendTx that credits somebody the contract txs of this block may pay / charge
+			var from []*sim.Actor
+			for _, a := range p.senders {
+				if a.Idx != op.sender.Idx && admit(a) {
+					from = append(from, a)
+				}
+			}
+			if len(from) == 0 {
+				continue
+			}
+			a := from[p.draw("prefixSendFrom", len(from))]
+			var to common.Address
+			switch p.draw("prefixSendTo", 4) {
+			case 0:
+				to = op.sender.Addr
+			case 1:
+				if op.target != nil {
+					to = op.target.addr
+				} else {
+					to = p.actorAddr("prefixSendToActor")
+				}
+			default:
+				to = p.actorAddr("prefixSendToActor")
+			}
+			off := place(a)
+			items = append(items, &prefixItem{tx: p.mkSend(a, to, sim.Dna(int64(1+p.draw("prefixSendDna", 50))), off), shape: "send-credit"})
+		default:
+			// the sender under test moves some coins first (same sender, consecutive nonces)
+			if !admit(op.sender) {
+				continue
+			}
+			off := place(op.sender)
+			items = append(items, &prefixItem{tx: p.mkSend(op.sender, p.actorAddr("prefixOwnSendTo"), sim.Dna(int64(1+p.draw("prefixOwnSendDna", 50))), off), shape: "same-sender-send"})
+		}
+	}
+	return items
+}
+
+// drainPrefix: the sender under test first sends away nearly everything, leaving what the (already built) contract tx
+// needs by size - amount + tips + intrinsic fee + `little` - but not the gas its max fee promises. The block builder
+// must then leave the contract tx out (it validates the maximal cost against the balance at that point of the block).
+func (p *prog) drainPrefix(op *opSpec, tx *types.Transaction) *prefixItem {
+	s := p.A.ReadState()
+	fpg, netSize := nz(s.State.FeePerGas()), s.ValidatorsCache.NetworkSize()
+	keep := fee.CalculateFee(netSize, fpg, tx)
+	keep.Add(keep, tx.AmountOrZero()).Add(keep, tx.TipsOrZero())
+	switch p.draw("drainLittle", 3) {
+	case 1:
+		keep.Add(keep, big.NewInt(1))
+	case 2:
+		keep.Add(keep, new(big.Int).Mul(fpg, big.NewInt(int64(1+p.draw("drainGas", 50)))))
+	}
+	bal := p.balance(op.sender.Addr)
+	var others []*sim.Actor
+	for _, a := range p.senders {
+		if a.Idx != op.sender.Idx {
+			others = append(others, a)
+		}
+	}
+	to := others[p.draw("drainTo", len(others))].Addr
+	d := &types.Transaction{Type: types.SendTx, To: &to, Epoch: tx.Epoch, AccountNonce: tx.AccountNonce - 1, Amount: big.NewInt(0)}
+	for i := 0; i < 4; i++ {
+		d.MaxFee = fee.CalculateFee(netSize, fpg, d)
+		d.Amount = new(big.Int).Sub(new(big.Int).Sub(bal, d.MaxFee), keep)
+		if d.Amount.Sign() <= 0 {
+			return nil
+		}
+	}
+	stx, err := types.SignTx(d, op.sender.Key)
+	if err != nil {
+		p.t.Fatalf("sign: %v", err)
+	}
+	return &prefixItem{tx: stx, shape: "drain"}
+}
+
+// noteSuccess updates the harness' notes after a successful contract tx (steering only).
+func (p *prog) noteSuccess(op *opSpec, rec *types.TxReceipt, makeLast bool) {
+	if op.created != nil {
+		op.created.addr = rec.ContractAddress
+		known := false
+		for _, x := range p.contracts {
+			if x.addr == rec.ContractAddress {
+				known = true
+			}
+		}
+		if !known {
+			p.contracts = append(p.contracts, op.created)
+			if makeLast {
+				p.last = op.created
+			}
+		}
+	}
+	if op.onSuccess != nil {
+		op.onSuccess()
+	}
+}
+
+// experiment puts the tx under test LAST into a block - alone, or behind a drawn prefix of 1-3 other txs - through the
+// normal proposer path on a copy of the state, lets the same proposer build the block with the prefix only on a second
+// copy at the same instant, inserts the block with the tx into the main replica as well (validator path), and evaluates
+// the oracle on the difference between the two blocks.
 func (p *prog) experiment(op *opSpec) {
 	t := p.t
-	tx, gasClass := p.build(op)
-	evid.Eval()
 	pre := p.A.ReadState()
 	fpg, netSize := nz(pre.State.FeePerGas()), pre.ValidatorsCache.NetworkSize()
+	var prefix []*prefixItem
+	drain := !op.pinNonce && fpg.Sign() > 0 && p.chance("drainShape", 5)
+	if drain {
+		op.nonceOffset = 1
+	} else {
+		prefix = p.drawPrefix(op)
+	}
+	tx, gasClass := p.build(op)
+	if drain {
+		if it := p.drainPrefix(op, tx); it != nil {
+			prefix = []*prefixItem{it}
+		} else {
+			return
+		}
+	}
+	evid.Eval()
 	pc := payClass(op, p.minStake(), p.balance(op.sender.Addr))
 	kindLabel := op.kind
 	if p.profile == "v9" {
@@ -132,27 +345,75 @@ func (p *prog) experiment(op *opSpec) {
 	evid.Count("gen.gas." + gasClass)
 	evid.Count("gen.pay." + pc)
 	evid.Count("gen.args." + op.argClass)
+	if op.selfArg {
+		evid.Count("gen.self-destination." + op.kind + "." + op.op + "." + op.method)
+	}
+	shape := "single"
+	if drain {
+		shape = "drain"
+	} else if len(prefix) > 0 {
+		shape = "prefixed"
+	}
 
 	with := p.copyOf("with")
+	var accepted []*prefixItem
+	for _, it := range prefix {
+		if err := with.Pool.AddExternalTxs(validation.MempoolTx, it.tx); err == nil {
+			accepted = append(accepted, it)
+		} else {
+			evid.Count("block.prefix-tx-refused-by-pool." + it.shape)
+		}
+	}
 	if err := with.Pool.AddExternalTxs(validation.MempoolTx, tx); err != nil {
 		evid.Count("m|" + key + "|refused-by-pool")
 		evid.Count("refused." + err.Error()[:min(len(err.Error()), 40)] + ".gas=" + gasClass)
 		return
 	}
 	b1 := with.Propose().Block
-	if len(b1.Body.Transactions) != 1 {
-		// the builder left it out (fee below the current price, pre-upgrade-12 skipped tx, ...): nothing happened, nothing to check
+	n1 := len(b1.Body.Transactions)
+	if n1 == 0 || b1.Body.Transactions[n1-1].Hash() != tx.Hash() {
+		included := false
+		for _, x := range b1.Body.Transactions {
+			included = included || x.Hash() == tx.Hash()
+		}
+		if included {
+			evid.Count("block." + shape + ".tx-under-test-not-last") // nothing applied, nothing checked
+			return
+		}
+		// the builder left it out (fee below the current price, pre-upgrade-12 skipped tx, balance at that point of the
+		// block cannot cover the maximal cost, ...): nothing happened, nothing to check
 		evid.Count("m|" + key + "|left-out-by-builder")
+		evid.Count("block." + shape + ".tx-left-out-by-builder")
 		return
 	}
 	without := p.copyOf("without")
-	b0 := without.Propose().Block
-	if len(b0.Body.Transactions) != 0 {
-		t.Fatalf("HARNESS: reference block is not empty")
+	for _, it := range accepted {
+		if err := without.Pool.AddExternalTxs(validation.MempoolTx, it.tx); err != nil {
+			t.Fatalf("HARNESS: the second pool refuses a prefix tx the first accepted: %v", err)
+		}
 	}
-	preSnap := takeSnap(pre)
+	b0 := without.Propose().Block
+	if len(b0.Body.Transactions) != n1-1 {
+		evid.Count("block." + shape + ".reference-differs")
+		return
+	}
+	for i, x := range b0.Body.Transactions {
+		if x.Hash() != b1.Body.Transactions[i].Hash() {
+			evid.Count("block." + shape + ".reference-differs")
+			return
+		}
+	}
+	prefixTxs := b0.Body.Transactions
 	gasLimit := gasLimitOf(netSize, fpg, tx)
-	dry, err := dryRun(with, tx, b1.Header, gasLimit)
+	mid, err := checkStateAfter(with, prefixTxs, b1.Header)
+	if err != nil {
+		t.Fatalf("HARNESS: %v", err)
+	}
+	runState, err := checkStateAfter(with, prefixTxs, b1.Header)
+	if err != nil {
+		t.Fatalf("HARNESS: %v", err)
+	}
+	dry, err := dryRun(with, runState, tx, b1.Header, gasLimit)
 	if err != nil {
 		t.Fatalf("HARNESS: replay failed: %v", err)
 	}
@@ -172,15 +433,60 @@ func (p *prog) experiment(op *opSpec) {
 	if recA := p.A.Chain.GetReceipt(tx.Hash()); recA == nil || recA.Success != rec.Success || recA.GasUsed != rec.GasUsed {
 		t.Fatalf("second replica has a different receipt: %+v vs %+v", recA, rec)
 	}
+	// fees of the preceding txs (the burnt share is computed on the block total) and notes about them
+	prefixFee := new(big.Int)
+	desc := p.describe(op, tx, gasClass)
+	okEmbeddedBefore := false
+	for i, x := range prefixTxs {
+		prefixFee.Add(prefixFee, fee.CalculateFee(netSize, fpg, x))
+		var it *prefixItem
+		for _, cand := range accepted {
+			if cand.tx.Hash() == x.Hash() {
+				it = cand
+			}
+		}
+		out := "-"
+		if r := without.Chain.GetReceipt(x.Hash()); r != nil {
+			prefixFee.Add(prefixFee, nz(r.GasCost))
+			out = fmt.Sprintf("success=%v", r.Success)
+			if it != nil && it.op != nil && r.Success {
+				p.noteSuccess(it.op, r, false)
+				if !strings.HasPrefix(it.op.kind, "wasm:") {
+					okEmbeddedBefore = true
+				}
+			}
+		}
+		from, _ := types.Sender(x)
+		to := "-"
+		if x.To != nil {
+			to = p.w.Name(*x.To)
+		}
+		shp := "?"
+		if it != nil {
+			shp = it.shape
+		}
+		desc += fmt.Sprintf("\n  preceded in the block by #%d: %s %s -> %s amount=%v nonce=%d (%s) %s", i, sim.TxTypeNames[x.Type], p.w.Name(from), to, x.Amount, x.AccountNonce, shp, out)
+		evid.Count("block.prefix-tx." + shp)
+	}
+	evid.Count(fmt.Sprintf("block.txs=%d", n1))
+	if drain {
+		evid.Count("block.drain.tx-included")
+	}
+	if okEmbeddedBefore && rec.Success && !dry.isWasm {
+		evid.Count("block.successful-embedded-tx-after-successful-embedded-tx")
+	}
 	c := &txCase{w: p.w, cfgUp11: with.Cfg.Consensus.EnableUpgrade11, burnRate: with.Cfg.Consensus.FeeBurnRate, tx: tx, sender: op.sender.Addr, proposer: p.A.Addr,
-		pre: preSnap, with: takeSnap(with.ReadState()), without: takeSnap(without.ReadState()), rec: rec, dry: dry, fpg: fpg, netSize: netSize,
-		kind: op.kind, op: op.op, method: op.method, desc: p.describe(op, tx, gasClass)}
+		mid: mid, prefixFee: prefixFee, with: takeSnap(with.ReadState()), without: takeSnap(without.ReadState()), rec: rec, dry: dry, fpg: fpg, netSize: netSize,
+		kind: op.kind, op: op.op, method: op.method, desc: desc}
 	c.check(t)
 	if rec.Success && op.post != nil {
 		if msg := op.post(c); msg != "" {
 			c.failf(t, "successful execution did not apply what the method promises: %s", msg)
 		}
 		evid.Count("post-condition.checked." + op.kind + "." + op.method)
+	}
+	if op.selfArg {
+		evid.Count(fmt.Sprintf("self-destination.%s.%s.%s.success=%v", op.kind, op.op, op.method, rec.Success))
 	}
 
 	// --- bookkeeping and evidence ---
@@ -190,7 +496,7 @@ func (p *prog) experiment(op *opSpec) {
 		moved := dry.w.events > 0
 		escrowed := tx.AmountOrZero().Sign() > 0 && (tx.Type == types.CallContractTx || dry.isWasm)
 		for a, b := range dry.w.balances {
-			base := new(big.Int).Set(preSnap.bal(a))
+			base := new(big.Int).Set(c.midBal(a))
 			if escrowed && op.target != nil && a == op.target.addr {
 				base.Add(base, tx.AmountOrZero())
 			}
@@ -209,22 +515,7 @@ func (p *prog) experiment(op *opSpec) {
 		} else {
 			outcome = "ok"
 		}
-		if op.created != nil {
-			op.created.addr = rec.ContractAddress
-			known := false
-			for _, x := range p.contracts {
-				if x.addr == rec.ContractAddress {
-					known = true
-				}
-			}
-			if !known {
-				p.contracts = append(p.contracts, op.created)
-				p.last = op.created
-			}
-		}
-		if op.onSuccess != nil {
-			op.onSuccess()
-		}
+		p.noteSuccess(op, rec, true)
 	} else {
 		n := dry.w.stateWrites()
 		switch {
@@ -337,6 +628,8 @@ func runProgram(t *rapid.T, profile string) {
 	if rapid.IntRange(0, 9).Draw(t, "startAtZeroGasPrice") != 9 {
 		w.Advance(15 * time.Second)
 		p.plainBlocks(1)
+		w.Advance(15 * time.Second)
+		p.spreadNonces()
 	}
 	steps := rapid.IntRange(20, 45).Draw(t, "steps")
 	if p.focus == "voting" {
